@@ -317,4 +317,57 @@ theorem inv_of_inv' {img : Image A} (h : Inv' img) (hc : img.created = true) : I
   · rw [h] at hc; simp [Image.empty] at hc
   · exact h
 
+/-! ### the spend journal covers the active chain (pruning off) -/
+
+/-- Every block of the persisted active chain has its spend-journal entry: what a
+later reorganisation needs to disconnect it. -/
+def JI (img : Image A) : Prop := ∀ s, s <:+ img.best → s ≠ [] → s ∈ img.journal
+
+def isPrune : Commit A → Bool
+  | .connectPrune _ _ _ => true
+  | _ => false
+
+theorem ji_empty : JI (Image.empty A) := by
+  intro s hs hne
+  exact absurd (List.suffix_nil.mp hs) hne
+
+theorem ji_preserves {img : Image A} {c : Commit A} (hj : JI img) (hs : Safe' img c) (hnp : isPrune c = false) :
+    JI (apply img c) := by
+  cases c with
+  | create =>
+    have : img = Image.empty A := hs
+    subst this
+    intro s hs' hne
+    exact absurd (List.suffix_nil.mp hs') hne
+  | nop => exact hj
+  | setMarker m => exact hj
+  | storeBlock n => exact hj
+  | indexRows rs => exact hj
+  | connectPrune n ps fl => simp [isPrune] at hnp
+  | connect n fl =>
+    have hsafe : n ≠ [] ∧ n.tail = img.best := by
+      cases fl with
+      | none => exact ⟨hs.2.1, hs.2.2.1⟩
+      | some u => exact ⟨hs.2.1, hs.2.2.1⟩
+    have key : ∀ s, s <:+ n → s ≠ [] → s ∈ n :: img.journal := by
+      intro s hs' hne
+      rcases suffix_of_tail_eq hsafe.1 hs' with h | h
+      · rw [h]; exact List.mem_cons_self
+      · exact List.mem_cons_of_mem _ (hj s (hsafe.2 ▸ h) hne)
+    cases fl <;> exact key
+  | disconnect n u =>
+    obtain ⟨_, h1, h2, _, _⟩ := hs
+    intro s hs' hne
+    have hs'' : s <:+ n.tail := hs'
+    show s ∈ img.journal.filter (· ≠ n)
+    refine List.mem_filter.mpr ⟨hj s (h2 ▸ List.IsSuffix.trans hs'' (suffix_tail_of_ne h1)) hne, ?_⟩
+    have hl := List.IsSuffix.length_le hs''
+    have : s ≠ n := by
+      intro e; subst e
+      cases s with
+      | nil => exact h1 rfl
+      | cons b t => simp at hl; omega
+    simpa using this
+  | utxoFlush u m => exact hj
+
 end BV.C04
